@@ -12,7 +12,11 @@ from vf.simk.world import World, FD
 ID = "C14"
 LEVEL = "exploration"
 ALT_MOUNT = True          # run once more with procfs mounted at /hostproc (vf/child.py)
-KINDS = ["reg", "del", "delx", "litdel", "sock", "pipe", "anon", "anon2", "chr", "rel", "dir", "nulreg", "delnul"]
+KINDS = ["reg", "del", "delx", "litdel", "sock", "pipe", "anon", "anon2", "chr", "rel", "dir", "nulreg", "delnul",
+         # targets whose stat() fails with something other than ENOENT: a parent component that is a regular file (ENOTDIR) or a
+         # symbolic link onto itself (ELOOP), with and without the ' (deleted)' marker
+         "notdir", "delnotdir", "loop", "delloop"]
+HKINDS = ["f", "d", "c", "-"]     # what a path names at one step of a history: regular file, directory, device node, nothing
 FLAGBITS = [os.O_APPEND, os.O_CREAT, os.O_TRUNC, os.O_CLOEXEC, os.O_NONBLOCK, 0o100000]
 POS = [0, 1, 2 ** 31 - 1, 2 ** 31, 2 ** 32, 2 ** 63 - 1]
 MODES5 = {"r", "w", "a", "r+", "a+"}
@@ -27,7 +31,9 @@ def target(kind, i):
     return {"reg": "/tmp/f%d" % i, "del": "/tmp/gone%d (deleted)" % i, "delx": "/tmp/f%d (deleted)" % i,
             "litdel": "/tmp/lit%d (deleted)" % i, "sock": "socket:[%d]" % (7000 + i), "pipe": "pipe:[%d]" % (8000 + i),
             "nulreg": "/tmp/f%d\x00 (deleted)" % i, "delnul": "/tmp/gone%d (deleted)\x00new" % i,
-            "anon": "anon_inode:[eventpoll]", "anon2": "anon_inode:inotify", "chr": "/dev/null", "rel": "rel/path%d" % i, "dir": "/tmp"}[kind]
+            "anon": "anon_inode:[eventpoll]", "anon2": "anon_inode:inotify", "chr": "/dev/null", "rel": "rel/path%d" % i, "dir": "/tmp",
+            "notdir": "/tmp/f%d/x" % i, "delnotdir": "/tmp/f%d/x (deleted)" % i, "loop": "/tmp/loop/x%d" % i,
+            "delloop": "/tmp/loop/x%d (deleted)" % i, "hist": "/tmp/h%d" % i}[kind]
 
 
 def mk_world(seed):
@@ -38,6 +44,7 @@ def mk_world(seed):
     for i in range(8):
         w.set_file("/tmp/f%d" % i, b"x")
         w.set_file("/tmp/lit%d (deleted)" % i, b"x")
+    w.set_link("/tmp/loop", "/tmp/loop")
     # decoys: regular files in the caller's working directory (the model resolves relative names against "/") named exactly
     # like the relative link targets -- a target that is not an absolute path never names a file of the *subject*
     w.mkdir("/rel")
@@ -78,7 +85,12 @@ def ref_open_files(w, table):
             # '/tmp/fN (deleted)' does not exist but '/tmp/fN' does: psutil's documented heuristic reports '/tmp/fN'
             may.append((t[:-10], fd, pos, ref_mode(flags), flags))
             may.append((t, fd, pos, ref_mode(flags), flags))
-        elif kind == "del":
+        elif kind == "hist":
+            # what the name is NOW (set_hist): listed exactly when it is a regular file
+            n = w.nodes.get(t)
+            if n is not None and n.kind == "f":
+                must.append((t, fd, pos, ref_mode(flags), flags))
+        elif kind in ("del", "delnotdir", "delloop"):
             # an unlinked regular file still held open: the statement does not say whether it is listed
             may.append((t, fd, pos, ref_mode(flags), flags))
             may.append((t[:-10], fd, pos, ref_mode(flags), flags))
@@ -124,6 +136,18 @@ def set_table(p, table, extra=b""):
     p.fds = {fd: FD(target(kind, fd), kind, pos, flags, extra) for fd, (kind, pos, flags) in table.items()}
 
 
+def set_hist(w, fd, hk):
+    """the name behind descriptor `fd` of kind 'hist' becomes a regular file / a directory / a device node / nothing"""
+    t = target("hist", fd)
+    w.remove(t)
+    if hk == "f":
+        w.set_file(t, b"x")
+    elif hk == "d":
+        w.mkdir(t)
+    elif hk == "c":
+        w.set_dev(t, 0x0103)
+
+
 def _run_case(case, st):
     import psutil
     w, p = st
@@ -140,6 +164,25 @@ def _run_case(case, st):
         n = outcome(pr.num_fds)
         if n != ("ok", len(table)):
             bad.append(("num_fds", "num_fds() -> %r, table has %d" % (n, len(table))))
+    elif k == "hist":
+        # ONE object asked several times while the names behind its descriptors change what they are: every answer follows
+        # the table as it is at that moment
+        fds = list(range(3, 3 + len(case[1][0])))
+        table = {fd: ("hist", 11 * fd, [0o100002, 0o102001][fd % 2]) for fd in fds}
+        table[7] = ("reg", 4, 0o100000)
+        set_table(p, table)
+        try:
+            for step, hks in enumerate(case[1]):
+                for fd, hk in zip(fds, hks):
+                    set_hist(w, fd, hk)
+                must, may = ref_open_files(w, table)
+                bad += judge_open_files(outcome(pr.open_files), must, may, "history-step%d" % step)
+                n = outcome(pr.num_fds)
+                if n != ("ok", len(table)):
+                    bad.append(("num_fds", "num_fds() -> %r, table has %d" % (n, len(table))))
+        finally:
+            for fd in fds:
+                set_hist(w, fd, "-")
     elif k == "archflags":
         # a Linux port with its own open(2) flag numbering: fdinfo shows THAT port's words, os.O_* are that port's constants
         arch = ARCH_FLAGS[case[1]]
@@ -295,10 +338,18 @@ def build_cases(thorough):
         if ex:
             cases.append(("table", {"3": ["reg", 5, 0o100002], "4": ["litdel", 9, 0o102001]}, ex))
     nmax = 5 if thorough else 3
-    kinds = KINDS if thorough else ["reg", "del", "delx", "litdel", "sock", "pipe", "anon2", "chr", "rel", "dir", "nulreg", "delnul"]
+    # (the four stat-failure kinds join the tables of up to 2 descriptors (thorough: 3); the larger tables keep the earlier alphabet)
+    kinds = KINDS[:13] if thorough else ["reg", "del", "delx", "litdel", "sock", "pipe", "anon2", "chr", "rel", "dir", "nulreg", "delnul"]
     for n in range(0, nmax + 1):
-        for combo in itertools.product(kinds, repeat=n):
+        for combo in itertools.product(KINDS if n <= (3 if thorough else 2) else kinds, repeat=n):
             cases.append(("table", {str(3 + i): [k, 11 * (i + 1), [0o100000, 0o100001, 0o102002, 0o101][i % 4]] for i, k in enumerate(combo)}))
+    # histories on one object: one name through every sequence of 1-3 states, two names through every pair of joint states
+    for n in (1, 2, 3):
+        for seq in itertools.product(HKINDS, repeat=n):
+            cases.append(("hist", [[h] for h in seq]))
+    for a in itertools.product(HKINDS, repeat=2):
+        for b in itertools.product(HKINDS, repeat=2):
+            cases.append(("hist", [list(a), list(b)]))
     base = ["rchar: 101", "wchar: 102", "syscr: 103", "syscw: 104", "read_bytes: 105", "write_bytes: 106", "cancelled_write_bytes: 107"]
     for arch_ in ARCH_FLAGS:
         cases.append(("archflags", arch_))
